@@ -29,6 +29,11 @@ Definition code_factor (f : nat) (fd : ffactor) : dfactor :=
                            w_start := win_start w; w_table := map lv_accepts (ff_levels fd) |}
        end |}.
 
+(** the reference window of a derived factor *)
+Definition dwin (fd : ffactor) (w : fwindow) : dwindow :=
+  {| w_deps := win_deps w; w_width := win_width w; w_stride := win_stride w;
+     w_start := win_start w; w_table := map lv_accepts (ff_levels fd) |}.
+
 Definition code_crossing (i : nat) (c : list nat) : dcrossing :=
   let cw := crossing_weight fb c in
   {| c_factors := c;
@@ -84,9 +89,10 @@ Definition code_sem : sem :=
 
 (** * The fragment F1
 
-    simple and WithinTrial factors only (no complex window); the factors outside
-    [act_design] (implied) are derived from factors of [act_design] by total
-    tables; sustain 1, zero preambles, exclusions from a crossing only through Exclude
+    the factors of [act_design] are simple or WithinTrial (no complex window); the
+    factors outside [act_design] (implied) are derived from factors of
+    [act_design] through any window that never reads before the first trial, by
+    tables one level of which accepts every argument tuple; sustain 1, zero preambles, exclusions from a crossing only through Exclude
     constraints and inconsistent derived levels, constraint kinds Consistency / Cross / Derivation (simple) /
     AtMostKInARow / AtLeastKInARow / ExactlyKInARow / ExactlyK / Exclude / Pin /
     Sequential (and the kinds that compile to nothing), unambiguous derived-level tables that the [Derivation]
@@ -96,6 +102,15 @@ Definition factor_f1 (fd : ffactor) : bool :=
   match ff_window fd with
   | None => true
   | Some w => (win_width w =? 1) && (win_stride w =? 1) && (win_start w =? 0)
+  end.
+
+(** a factor outside [act_design] (implied: no variables, its row is computed
+    after solving): any window shape that never reads before the first trial *)
+Definition factor_impl_f1 (fd : ffactor) : bool :=
+  (0 <? length (ff_levels fd)) &&
+  match ff_window fd with
+  | None => false
+  | Some w => (0 <? win_width w) && (0 <? win_stride w) && (win_width w - 1 <=? win_start w)
   end.
 
 Definition col_ok (dep : nat) (col : list (option nat)) : bool :=
@@ -122,11 +137,12 @@ Definition tables_ok (f : nat) (fd : ffactor) : bool :=
   | None => true
   | Some w =>
     forallb isact (win_deps w) &&
-    forallb (fun lv => forallb (entry_ok (win_deps w)) (lv_accepts lv)) (ff_levels fd)
+    (negb (isact f) || forallb (fun lv => forallb (entry_ok (win_deps w)) (lv_accepts lv)) (ff_levels fd))
   end.
 
 (** no argument tuple is accepted by two levels *)
-Definition tables_unambiguous (fd : ffactor) : bool :=
+Definition tables_unambiguous (f : nat) (fd : ffactor) : bool :=
+  negb (isact f) ||
   match ff_window fd with
   | None => true
   | Some w =>
@@ -135,19 +151,30 @@ Definition tables_unambiguous (fd : ffactor) : bool :=
             (product (map (fun d => seq 0 (nlevels fb d)) (win_deps w)))
   end.
 
-(** some level accepts every argument tuple (needed for the implied factors,
+(** the argument tuples of a window: per depended-on factor [width] cells, each a level *)
+Fixpoint all_cols (n width : nat) : list (list (option nat)) :=
+  match width with
+  | O => [[]]
+  | S k => flat_map (fun x => map (cons (Some x)) (all_cols n k)) (seq 0 n)
+  end.
+
+Definition all_args (w : fwindow) : list (list (list (option nat))) :=
+  product (map (fun d => all_cols (nlevels fb d) (win_width w)) (win_deps w)).
+
+(** exactly one level accepts every argument tuple (the implied factors,
     whose level is computed from the others after solving) *)
 Definition tables_total (fd : ffactor) : bool :=
   match ff_window fd with
   | None => true
   | Some w =>
-    forallb (fun args => existsb (fun l => level_accepts fd l args) (seq 0 (length (ff_levels fd))))
-            (product (map (fun d => seq 0 (nlevels fb d)) (win_deps w)))
+    forallb (fun args =>
+               length (filter (fun l => accepts (dwin fd w) l args) (seq 0 (length (ff_levels fd)))) =? 1)
+            (all_args w)
   end.
 
 (** an implied factor (not in [act_design]) is a derived factor with a total table *)
 Definition implied_ok (f : nat) (fd : ffactor) : bool :=
-  isact f || (match ff_window fd with Some _ => true | None => false end && tables_total fd).
+  isact f || (factor_impl_f1 fd && tables_total fd).
 
 Definition didx_eqb (a b : didx) : bool :=
   match a, b with
@@ -194,7 +221,7 @@ Definition derivations_match : bool :=
              end) (combine (seq 0 (length (fl_design fb))) (fl_design fb)) &&
   (* ... and every Derivation is one of those *)
   forallb (fun c => match c with
-                    | FDerivation _ _ f => existsb (fun l => is_derivation_of f l c) (seq 0 (nlevels fb f))
+                    | FDerivation _ _ f => isact f && existsb (fun l => is_derivation_of f l c) (seq 0 (nlevels fb f))
                     | _ => true
                     end) (fl_constraints fb).
 
@@ -247,13 +274,13 @@ Definition no_excluded_derived : bool :=
   match fl_excluded_derived fb with [] => true | _ => false end.
 
 Definition in_f1 : bool :=
-  forallb factor_f1 (fl_design fb) &&
-  forallb (fun p => tables_ok (fst p) (snd p) && tables_unambiguous (snd p))
+  forallb (fun p => negb (isact (fst p)) || factor_f1 (snd p)) (combine (seq 0 (length (fl_design fb))) (fl_design fb)) &&
+  forallb (fun p => tables_ok (fst p) (snd p) && tables_unambiguous (fst p) (snd p))
           (combine (seq 0 (length (fl_design fb))) (fl_design fb)) &&
   (act_sorted && forallb (fun p => implied_ok (fst p) (snd p)) (combine (seq 0 (length (fl_design fb))) (fl_design fb))) &&
   forallb (fun n => n =? 1) (fl_sustains fb) &&
   (length (fl_sustains fb) =? length (fl_crossings fb)) &&
-  (fl_alignment_preamble fb =? 0) &&
+  (match fl_alignment fb with PostPreamble => fl_alignment_preamble fb =? 0 | _ => true end) &&
   forallb (fun n => n =? 0) (fl_preambles fb) &&
   crossings_f1 0 (fl_crossings fb) &&
   forallb list_nat_nodup (fl_crossings fb) &&
@@ -267,12 +294,12 @@ Definition in_f1 : bool :=
 (** the conjuncts of [in_f1] one by one (diagnostics for the harness: why a
     generated program is outside the proved fragment) *)
 Definition f1_why : list bool :=
-  [ forallb factor_f1 (fl_design fb);
+  [ forallb (fun p => negb (isact (fst p)) || factor_f1 (snd p)) (combine (seq 0 (length (fl_design fb))) (fl_design fb));
     forallb (fun p => tables_ok (fst p) (snd p)) (combine (seq 0 (length (fl_design fb))) (fl_design fb));
-    forallb (fun p => tables_unambiguous (snd p)) (combine (seq 0 (length (fl_design fb))) (fl_design fb));
+    forallb (fun p => tables_unambiguous (fst p) (snd p)) (combine (seq 0 (length (fl_design fb))) (fl_design fb));
     act_sorted && forallb (fun p => implied_ok (fst p) (snd p)) (combine (seq 0 (length (fl_design fb))) (fl_design fb));
     forallb (fun n => n =? 1) (fl_sustains fb);
-    (fl_alignment_preamble fb =? 0) && forallb (fun n => n =? 0) (fl_preambles fb);
+    (match fl_alignment fb with PostPreamble => fl_alignment_preamble fb =? 0 | _ => true end) && forallb (fun n => n =? 0) (fl_preambles fb);
     crossings_f1 0 (fl_crossings fb);
     forallb list_nat_nodup (fl_crossings fb);
     forallb constraint_f1 (fl_constraints fb);
